@@ -10,7 +10,12 @@
    removed are those (frame: every other key, in particular every key of another origin, keeps its
    value) — unless the Location value leaves the modelled URL grammar (OutOfModel).
    C07_later: with the index gone, the next GET for that key is a miss: it goes to the origin, so nothing
-   stored earlier is returned again without the origin being contacted. *)
+   stored earlier is returned again without the origin being contacted.
+   C07_late_validation_discarded: a stale-while-revalidate background validation that was in flight while
+   the unsafe request ran (its request belongs to an earlier, finished exchange of the sequence) finds
+   the entry gone when its answer arrives and writes nothing: whatever the answer (304 or a full
+   response), the store is left as the invalidation left it.  The experiment TestLateInvalidation runs
+   this history on the implementation with the answer held at the origin. *)
 From HC Require Import Transport Run SpecMon.
 From HC.Proofs Require Import Paths HeaderProofs RunProofs.
 Open Scope Z_scope.
@@ -71,6 +76,19 @@ Proof.
   unfold get_refs. unfold gone in Hg. rewrite Hg. reflexivity.
 Qed.
 Print Assumptions C07_later.
+
+Theorem C07_late_validation_discarded : forall limit q stored url_key f cc_req rep start stop w,
+  background_revalidate q stored url_key f cc_req =
+    round_trip_timed q (background_after_reply q stored url_key f cc_req) /\
+  (gone (e_id stored) w ->
+   exists w', run limit (background_after_reply q stored url_key f cc_req rep start stop) w = (Done tt, w') /\
+              w_store w' = w_store w /\ w_pending w' = w_pending w).
+Proof.
+  intros limit q stored url_key f cc_req rep start stop w. split; [exact (background_revalidate_after_reply _ _ _ _ _)|].
+  intros Hg. rewrite (late_validation_discarded limit q stored url_key f cc_req rep start stop w Hg).
+  eexists; split; [reflexivity|]. destruct rep; split; reflexivity.
+Qed.
+Print Assumptions C07_late_validation_discarded.
 
 (* non-vacuity: a PUT with a 200 reply and a same-origin Location deletes the index, its entry and the
    index of the named URI, and leaves another origin's key alone *)
